@@ -1,7 +1,7 @@
 ------------------------------ MODULE Trace_Bytes ------------------------------
 (* Cross-check of the harness encoder against AseBytes!Encode, and of the end   *)
 (* of the last frame computed from the bytes alone (EndOfFrames).               *)
-EXTENDS AseBytes, Json, IOUtils, TLC
+EXTENDS AseParse, Json, IOUtils
 
 Rec == ndJsonDeserialize(IOEnv.TRACE)
 VARIABLE l
@@ -17,6 +17,9 @@ TEnc == /\ l <= Len(Rec) /\ Rec[l].ev = "enc" /\ l' = l + 1
            IN /\ Count(43, 1) /\ Count(44, Len(e.bytes))
               /\ Verdict(e.bytes = spec, <<e.case, "encoder_bytes_differ", "lengths", Len(e.bytes), Len(spec), "first_difference_at", FirstDiff(e.bytes, spec) - 1>>)
               /\ Verdict(EndOfFrames(e.bytes) = e.eof, <<e.case, "end_of_frames_differs", EndOfFrames(e.bytes), e.eof>>)
+              \* the byte-level decoder is the inverse of the encoder as far as the loader can tell
+              /\ LET d == Decode(e.bytes) IN
+                   Verdict(d.t = "ok" /\ Load(d.prog) = Load(e.prog), <<e.case, "decode_roundtrip_differs", d.t, d.why>>)
 TraceInit == l = 1 /\ TLCSet(RejectReg, 0) /\ TLCSet(43, 0) /\ TLCSet(44, 0)
 TraceSpec == TraceInit /\ [][TEnc]_l
 TraceAccepted ==
